@@ -177,6 +177,10 @@ def model_check(ctx, quick):
     if not r.violated:
         raise tlc.ModelError("negative control failed: an enlarged ring without the per-call cap should lose frames")
     rep.notes["negative_control_ring"] = "AcmodPipe_nocap.cfg (streaming call fills a ring enlarged by a full-utterance call) violates %s as expected" % r.violated
+    r = tlc.run("MC_AcmodPipe.tla", "AcmodPipe_keepidx.cfg", SPEC, workers=4, timeout=600)
+    if not r.violated:
+        raise tlc.ModelError("negative control failed: a ring read position that survives the start of an utterance should break the windows")
+    rep.notes["negative_control_outidx"] = "AcmodPipe_keepidx.cfg (read position of the cepstrum ring not reset by start_utt) violates %s as expected" % r.violated
     r = tlc.run("MC_AcmodPipe.tla", "AcmodPipe_aswas.cfg", SPEC, workers=4, timeout=600)
     if r.violated not in ("CompleteAtEnd", "SearchedAreWindows"):
         raise tlc.ModelError("negative control failed: the pre-fix STARTED handling should violate the window invariants, got %s" % r.violated)
